@@ -172,6 +172,35 @@ func check(ctx *pbt.Ctx, c Case) error {
 			}
 		}
 	}
+	// a missing input can also be an empty slot of the input list: asked for that index (in range),
+	// both functions must report ErrInputNoExist like for an index out of range - for every input
+	// position of small transactions, the first, middle and last of large ones
+	for _, idx := range []int{0, n / 2, n - 1} {
+		if n == 0 || (idx != 0 && idx == n/2 && n <= 2 && idx != n-1) {
+			continue
+		}
+		slot := tx.Inputs[idx]
+		tx.Inputs[idx] = nil
+		var perr, herr error
+		var panicked any
+		func() {
+			defer func() { panicked = recover() }()
+			ht := []int{0x41, 0xc1, 0x42, 0xc3}[(idx+n)%4]
+			_, perr = tx.CalcInputPreimage(uint32(idx), sighash.Flag(ht))
+			_, herr = tx.CalcInputSignatureHash(uint32(idx), sighash.Flag(ht))
+		}()
+		tx.Inputs[idx] = slot
+		if panicked != nil {
+			return fmt.Errorf("input slot %d of %d is empty (nil): the hash functions panicked instead of reporting the missing input: %v", idx, n, panicked)
+		}
+		if !errors.Is(perr, bt.ErrInputNoExist) || !errors.Is(herr, bt.ErrInputNoExist) {
+			return fmt.Errorf("input slot %d of %d is empty (nil): CalcInputPreimage err=%v, CalcInputSignatureHash err=%v, want ErrInputNoExist", idx, n, perr, herr)
+		}
+		ctx.Label("err_empty_slot")
+	}
+	if after := ref.Snapshot(tx); !ref.SameSnapshot(before, after) {
+		return fmt.Errorf("transaction modified by sighash calls on an empty input slot: %s", ref.DiffSnapshot(before, after))
+	}
 	for _, l := range []struct {
 		on bool
 		s  string
@@ -268,6 +297,17 @@ func genCase(t *rapid.T) Case {
 		m.In[i].PrevScript, m.In[i].PrevNil = nil, true
 	}
 	// low weight: one very long script code (70 kB; 5-byte varint boundary is 65536)
+	// script codes (and an output script) that are a standard template or one step away from one
+	if rapid.IntRange(0, 3).Draw(t, "template_like") == 0 {
+		for i := range m.In {
+			if !m.In[i].PrevNil && rapid.IntRange(0, 2).Draw(t, "tpl_in") != 0 {
+				m.In[i].PrevScript = gen.TemplateLike(t, "tpl")
+			}
+		}
+		if len(m.Out) > 0 && rapid.Bool().Draw(t, "tpl_out") {
+			m.Out[rapid.IntRange(0, len(m.Out)-1).Draw(t, "tpl_out_at")].Script = gen.TemplateLike(t, "tplo")
+		}
+	}
 	if len(m.In) <= 8 && rapid.IntRange(0, 39).Draw(t, "huge") == 0 {
 		gen.HugeField(t, &m)
 	}
